@@ -397,7 +397,8 @@ def _codec(ctx: Ctx, res: RuleResult):
     tok_locals = {x.targets[0].id for x in dec.body_nodes() if isinstance(x, ast.Assign) and len(x.targets) == 1
                   and isinstance(x.targets[0], ast.Name) and isinstance(x.value, ast.Subscript) and const_str(x.value.slice) == 'tokens'}
     ok = any(isinstance(n, ast.Call) and norm(n.func).endswith('.reversed') for n in enc.body_nodes()) and \
-        any(isinstance(n, ast.Subscript) and isinstance(n.value, ast.Name) and n.value.id in tok_locals for n in dec.body_nodes())
+        (any(isinstance(n, ast.Subscript) and isinstance(n.value, ast.Name) and n.value.id in tok_locals for n in dec.body_nodes())
+         or any(isinstance(n, ast.Subscript) and isinstance(n.value, ast.Subscript) and const_str(n.value.slice) == 'tokens' for n in dec.body_nodes()))
     res.ob(site, 'token names are enumerated by the encoder (reverse map stored) and looked up by the decoder', ok)
     if not ok:
         res.finding(dec, dec.node, 'token enumeration of the encoder is not inverted by the decoder', construct='token-enum')
